@@ -11,10 +11,13 @@ ItIds == {1, 2}
 
 TInit == TLCSet(1, 0) /\ l = 1 /\ MInit(ItIds)
 
+\* e.lite = 2: a blind call -- nothing was observed after it but the lookups listed (possibly
+\* none); the map must not depend on being looked at to put itself in order
 ObsOK(e, f) ==
   /\ e.panic = ""
-  /\ e.len = Cardinality(DOMAIN f)
-  /\ (IF e.lite = 1 THEN e.keys = <<Cardinality(DOMAIN f)>>      \* very large map: number of keys only
+  /\ (e.lite # 2 => e.len = Cardinality(DOMAIN f))
+  /\ (IF e.lite = 2 THEN TRUE
+      ELSE IF e.lite = 1 THEN e.keys = <<Cardinality(DOMAIN f)>>      \* very large map: number of keys only
       ELSE e.keys = KeysOf(f) /\ e.str = StringOf(f))
   /\ \A i \in DOMAIN e.gets :
        LET g == e.gets[i] IN <<g[2], g[3]>> = GetOK(f, g[1]) /\ g[4] = GetOK(f, g[1])[1]
